@@ -72,6 +72,22 @@ Definition roundtrip_flat (p : fspt) : list Z := flat_spt (import_simple _ _ _ (
 Definition prefix_flat (p : fspt) (n : nat) : list Z :=
   let f := fold_left (wstep _ _ _) (firstn n (export_ops _ _ _ p)) (create _ _ _ p) in
   (if f_writing _ _ _ f then 1%Z else 0%Z) :: flat_spt (import_simple _ _ _ f).
+(* a write-mode file filled by hand (C17): operations coded (0,k) set_mpo k, (1,k) set_cap k, (2,n) name := n, (3,n) description := n,
+   anything else close(); observation after all of them: [writing flag; name; description; number of MPO slots; number of cap slots] *)
+Definition hand_tensor (r4 : bool) : ftensor :=
+  if r4 then ([1; 1; 1; 1], [Some (1%Z, 0%Z)]) else ([1], [Some (1%Z, 0%Z)]).
+Definition hand_op (c : Z * Z) : wop G Z :=
+  match c with
+  | (0, k) => WMpo _ _ (Z.to_nat k) (hand_tensor true)
+  | (1, k) => WCap _ _ (Z.to_nat k) (hand_tensor false)
+  | (2, n) => WName _ _ n
+  | (3, n) => WDesc _ _ n
+  | _ => WClose _ _
+  end%Z.
+Definition handfill_flat (name desc : Z) (codes : list (Z * Z)) : list Z :=
+  let f := fold_left (wstep _ _ _) (map hand_op codes) (create _ _ _ (mkspt 2 None None None name desc None [] [])) in
+  [if f_writing _ _ _ f then 1%Z else 0%Z; f_name _ _ _ f; f_desc _ _ _ f;
+   Z.of_nat (length (f_mpos _ _ _ f)); Z.of_nat (length (f_caps _ _ _ f))].
 Definition mode_table : list Z :=
   flat_map (fun m => flat_map (fun e =>
      [match open_mode m e with Created => 0 | Replaced => 1 | OpenedExisting => 2 | Refused => 3 end]%Z)
